@@ -19,7 +19,9 @@ package rdbrestore
 // Monitor (independent of the Lean model): vfc20.Check.
 
 import (
+	"bytes"
 	"encoding/json"
+	"fmt"
 	"os"
 	"strings"
 	"testing"
@@ -27,6 +29,7 @@ import (
 	"time"
 
 	"github.com/mgtv-tech/redis-GunYu/config"
+	"github.com/mgtv-tech/redis-GunYu/pkg/rdb"
 	"github.com/mgtv-tech/redis-GunYu/pkg/redis/client/conn"
 	"github.com/mgtv-tech/redis-GunYu/pkg/vfc20"
 	"github.com/mgtv-tech/redis-GunYu/pkg/vfdoubles"
@@ -60,14 +63,53 @@ func vfRunCase(t *testing.T, c *vfc20.Case) *vfc20.Run {
 		rr := &RdbReplay{Client: cli, RedisVersion: c.Ver, EnableRestore: c.Restore, MaxProtoBulkLen: c.MaxBulk,
 			KeyExists: pol, KeyExistsLog: c.Log, ReplaceHashTag: c.HashTag}
 		res.Final = "ok"
-		for _, e := range res.Bins {
+		next := func(i int) *rdb.BinEntry {
+			if i < len(res.Bins) {
+				return res.Bins[i]
+			}
+			return nil
+		}
+		if c.Interleave {
+			// parse entry n+1 only after entry n has been replayed
+			if c.Thr > 0 {
+				old := rdb.VerifSetMaxBinEntryBuffer(c.Thr)
+				defer rdb.VerifSetMaxBinEntryBuffer(old)
+			}
+			l := rdb.NewLoader(bytes.NewReader(vfc20.BuildRDB(c.KVList(), vfc20.Opts{Aux: true})), rdb.WithTargetRedisVersion(c.Ver))
+			if err := l.Header(); err != nil {
+				res.LoadErr = err
+				return
+			}
+			res.Ents = nil
+			var firstKey []byte
+			next = func(i int) *rdb.BinEntry {
+				e, err := l.Next()
+				if err != nil || e == nil {
+					return nil
+				}
+				res.Ents = append(res.Ents, vfc20.Flatten(e))
+				if e.FirstBin() {
+					firstKey = append([]byte(nil), e.Key...)
+				} else if !bytes.Equal(firstKey, e.Key) {
+					res.BinKeyChanged = fmt.Sprintf("a later bin of %q was delivered by the loader with key %q", firstKey, e.Key)
+				}
+				return e
+			}
+		}
+		for i := 0; ; i++ {
+			e := next(i)
+			if e == nil {
+				break
+			}
 			err := rr.Replay(e)
 			res.EntEnd = append(res.EntEnd, tg.LogLen()-nSeed)
 			en, key := vfc20.ErrEnum(err)
 			res.Errs = append(res.Errs, en)
 			if err != nil {
-				res.Final, res.FailKey, res.ErrText = en, string(e.Key), err.Error()
-				_ = key
+				res.Final, res.FailKey, res.ErrText = en, string(c.TKey(e.Key)), err.Error()
+				if key != "" {
+					res.FailKey = key // the key the error message names
+				}
 				break
 			}
 		}
@@ -115,6 +157,10 @@ func TestVerifC20(t *testing.T) {
 		}
 		vfc20.Emit(s, idx, c, r)
 		idx++
+		if r.BinKeyChanged != "" {
+			s.Count("viol_bin-key-changed")
+			s.Violate("bin-key-changed", "the bins of one value must carry the same key (it routes them to one worker and is rewritten per bin): "+r.BinKeyChanged, c.Replay())
+		}
 		vfc20.Check(s, c, r)
 		vfc20.Stats(s, c, r, src)
 	}
@@ -154,6 +200,26 @@ func TestVerifC20(t *testing.T) {
 	}
 	for _, c := range vfc20.ExhaustiveHashTag("plain") {
 		run(c, "exhaustive-hashtag")
+	}
+	// the same scopes with parser and replayer alternating (entry n+1 parsed after entry n was replayed)
+	for _, c := range vfc20.ExhaustiveHashTag("plain") {
+		c.Interleave = true
+		run(c, "exhaustive-hashtag-interleaved")
+	}
+	for _, key := range []string{"{{k0}}", "{k1", "{a}{b}", "k"} {
+		for _, pol := range []string{"replace", "ignore", "error"} {
+			for _, ht := range []bool{true, false} {
+				for pm := 0; pm < 2; pm++ {
+					c := &vfc20.Case{Mode: "plain", Pol: pol, Thr: 1, MaxBulk: 1 << 29, Ver: "7.0.0", HashTag: ht, Interleave: true,
+						KVs: []vfc20.KVSpec{{Key: vfutil.HexS(key), Type: 4, Exp: 2, Items: []string{vfutil.HexS("f0"), vfutil.HexS("a"), vfutil.HexS("f1"), vfutil.HexS("b"), vfutil.HexS("f2"), vfutil.HexS("c")}},
+							{Key: vfutil.HexS("z"), Type: 0, Str: vfutil.HexS("v")}}}
+					if pm == 1 {
+						c.Pre = []vfc20.Pre{{Key: vfutil.Hex(c.TKey([]byte(key))), Kind: "hash", TTL: 60000}}
+					}
+					run(c, "interleaved-split")
+				}
+			}
+		}
 	}
 	r := vfutil.NewRand(vfutil.Seed())
 	n := vfutil.Scale(1500, 30000)
